@@ -111,6 +111,8 @@ type Exec struct {
 	prngKeys    map[*Object]string
 	initSkipped int
 	stubOrder   []*Term
+	fpErrN      int
+	crtN        int
 }
 
 type cutSpec struct {
@@ -1252,7 +1254,12 @@ func (x *Exec) binop(op token.Token, a, b Value, ta, tb types.Type) Value {
 		}
 	case *FE:
 		return x.feBinop(op, a, b, ta)
+	case *RealV:
+		return x.realBinop(op, a, b)
 	case FloatV:
+		if _, ok := b.(*RealV); ok {
+			return x.realBinop(op, a, b)
+		}
 		vb := b.(FloatV)
 		f32 := false
 		if bt, ok := ta.Underlying().(*types.Basic); ok && bt.Kind() == types.Float32 {
